@@ -183,6 +183,11 @@ pub broadcast axiom fn axiom_block_height(b: &naga::Block, i: int, k: int)
     requires 0 <= i < block_stmts(b).len(), 0 <= k < sub_blocks(&block_stmts(b)[i]).len(),
     ensures #[trigger] block_height(&sub_blocks(&block_stmts(b)[i])[k]) < block_height(b);
 
+// naga::Statement::is_terminator (naga/src/back/mod.rs, transcribed): Break | Continue | Return | Kill.  Specified so that a
+// walker that stops at a terminator fails its "every statement of the block was visited" invariant instead of being unsupported.
+pub assume_specification[ naga::Statement::is_terminator ](s: &naga::Statement) -> (r: bool)
+    ensures r == (s is Break || s is Continue || s is Return || s is Kill);
+
 // String's Ord is a lawful total order (needed by vstd's BTreeMap<String, _> specs)
 pub broadcast axiom fn axiom_string_obeys_cmp()
     ensures #[trigger] vstd::laws_cmp::obeys_cmp::<String>();
